@@ -68,7 +68,7 @@ pub fn run(ctx: &Ctx, rep: &mut Report) {
         };
         let base_off = a * rng.below((64 / a) as u64) as usize;
         rep.count("messages");
-        rep.key(mix(hash_str(vt.name) ^ mix(hash_str(&format!("{:?}", v)))));
+        rep.key(mix(hash_str(vt.name) ^ mix(v.hash64())));
 
         // the message itself
         let check_ok = |buf: &[u8], rep: &mut Report, what: &str, k: usize, must_ok: bool| {
